@@ -364,7 +364,7 @@ def _scalar_value_param(t):
 
 def helper_callee(fx, n):
     """Fn of a call that may be summarised: a free/static function, or a member function called on `this`,
-    that is part of the fact base and takes at least one floating argument."""
+    that is part of the fact base and returns an arithmetic value."""
     k = n.get("k")
     if k == "CXXMemberCallExpr":
         obj = F.call_object(n)
@@ -375,8 +375,12 @@ def helper_callee(fx, n):
     fn = fx.functions.get(n.get("calleeKey") or "")
     if fn is None:
         return None
-    if not any((p.get("t") or "").replace("const ", "").replace("&", "").strip() in FLOAT_TYPES
-               for p in fn.params):
+    ret = (fn.rec.get("ret") or "").replace("const ", "").replace("&", "").strip()
+    if ret not in FLOAT_TYPES and ret not in INT_TYPES:
+        return None
+    # the value must flow through scalar arguments (or there are none): f(point, point) stays an atom
+    if fn.params and not any((p.get("t") or "").replace("const ", "").replace("&", "").strip() in FLOAT_TYPES
+                             for p in fn.params):
         return None
     return fn
 
@@ -642,6 +646,9 @@ class Sym:
                     return Sym(self.fx, self.fn).poly(g["init"])
                 return Poly.atom(n["ref"].get("qn") or n["ref"].get("name"))
         if k in ("CallExpr", "CXXMemberCallExpr"):
+            if self.modwrap and k == "CallExpr" and plain_callee(n) in WRAP_CALLS and len(call_args(n)) == 2 \
+                    and self.poly(call_args(n)[1]).numeric() is not None:
+                return self.poly(call_args(n)[0])       # value modulo full circles
             p = self.inline_call(n)
             if p is not None:
                 return p
